@@ -569,7 +569,7 @@ class Engine(object):
                 return int(sa[:1].upper() == sb[:1].upper())
             return UNK
         ret = UNK
-        if name in ALLOC_NAMES:
+        if name in ALLOC_NAMES or name in getattr(self, 'retfresh', ()):
             ret = ('fresh', 'n%d' % self.cur_node.id)
         if self.want(name):
             self.cur_events.append({'kind': 'call', 'name': name, 'args': vals, 'argx': args, 'node': self.cur_node.id,
